@@ -17,6 +17,7 @@ import (
 	"errors"
 	"fmt"
 	"math/rand"
+	"os"
 	"sync"
 	"testing"
 
@@ -172,6 +173,8 @@ func spReason(r message.Reason) string {
 type spCase struct {
 	facts map[string]any
 	tag   string
+	from  string // sender uid of the materialised case
+	group string // group channel id of the materialised case (group cases only)
 	cmd   message.SendCommand
 	beh   any // the behaviour this case came from (replay artefact), nil for driver cases
 	exp   any // expected Decide result (replayed behaviours only)
@@ -196,8 +199,56 @@ func spChannel(state string, id string, typ int64) (metadb.Channel, bool) {
 	return ch, true
 }
 
+// spShareSender finds an earlier case of the chunk whose sender facts are the same, so that
+// two cases can be two sends of one sender (their sender record is then one shared read).
+func spShareSender(c *spCase, earlier []*spCase, rng *rand.Rand) string {
+	f := c.facts
+	if t := kit.Str(f, "type"); t == "visitors" || t == "agent" || kit.Str(f, "fail") == "sender" || rng.Intn(3) != 0 {
+		return ""
+	}
+	for _, e := range earlier {
+		g := e.facts
+		if t := kit.Str(g, "type"); t == "visitors" || t == "agent" || kit.Str(g, "fail") == "sender" || e.from == "" {
+			continue
+		}
+		if kit.Bool(f, "sysuid") == kit.Bool(g, "sysuid") && kit.Bool(f, "sysdev") == kit.Bool(g, "sysdev") &&
+			kit.Str(f, "sender") == kit.Str(g, "sender") {
+			return e.from
+		}
+	}
+	return ""
+}
+
+// spShareGroup finds an earlier group case with the same group-level facts, so that two cases
+// can be sends of two senders into one group (channel record and allow-list presence shared).
+func spShareGroup(c *spCase, earlier []*spCase, rng *rand.Rand) string {
+	f := c.facts
+	bad := func(x map[string]any) bool {
+		return kit.Str(x, "type") != "group" || kit.Str(x, "fail") == "target" || kit.Str(x, "fail") == "hasallow"
+	}
+	if bad(f) || rng.Intn(3) != 0 {
+		return ""
+	}
+	for _, e := range earlier {
+		if bad(e.facts) || e.group == "" {
+			continue
+		}
+		taken := false // the (sender, group) pair must stay unique to this case
+		for _, x := range earlier {
+			taken = taken || (x.from == c.from && x.group == e.group)
+		}
+		if taken {
+			continue
+		}
+		if kit.Str(f, "target") == kit.Str(e.facts, "target") && kit.Bool(f, "hasallow") == kit.Bool(e.facts, "hasallow") {
+			return e.group
+		}
+	}
+	return ""
+}
+
 // materialise writes the facts of one case into the store and builds its command.
-func (c *spCase) materialise(st *spStore, k int, rng *rand.Rand) error {
+func (c *spCase) materialise(st *spStore, k int, rng *rand.Rand, earlier []*spCase) error {
 	f := c.facts
 	typ := kit.Str(f, "type")
 	codes, ok := spTypeCodes[typ]
@@ -206,6 +257,10 @@ func (c *spCase) materialise(st *spStore, k int, rng *rand.Rand) error {
 	}
 	code := codes[rng.Intn(len(codes))]
 	from := fmt.Sprintf("s%d", k)
+	if shared := spShareSender(c, earlier, rng); shared != "" {
+		from = shared
+	}
+	c.from = from
 	if kit.Bool(f, "sysuid") {
 		st.system[from] = true
 	}
@@ -255,6 +310,10 @@ func (c *spCase) materialise(st *spStore, k int, rng *rand.Rand) error {
 		}
 	case "group":
 		target = fmt.Sprintf("g%d", k)
+		if shared := spShareGroup(c, earlier, rng); shared != "" {
+			target = shared
+		}
+		c.group = target
 		cmd.ChannelID = target
 		lists, useLists = channelmembers.ChannelKey{ChannelID: target, ChannelType: code}, true
 	case "visitors":
@@ -333,7 +392,7 @@ func spRunChunk(cases []*spCase, wl bool, base int, rng *rand.Rand) error {
 	st := newSPStore()
 	st.wrapNF = rng.Intn(2) == 0
 	for i, c := range cases {
-		if err := c.materialise(st, base+i, rng); err != nil {
+		if err := c.materialise(st, base+i, rng, cases[:i]); err != nil {
 			return err
 		}
 	}
@@ -514,11 +573,51 @@ func TestVerifSendPermission(t *testing.T) {
 			rep.Cover("Decide:" + kit.Str(c.facts, "type"))
 		}
 	}
+	// ---- optional probe outside the specification's domain (off unless VERIF_C36_MALFORMED=1):
+	// a person channel id that cannot be decoded, sent with NormalizePersonChannel=false.
+	// No production entry point builds such a command; the two paths are only compared with
+	// each other.
+	if os.Getenv("VERIF_C36_MALFORMED") == "1" {
+		spMalformedProbe(rep)
+	}
+
 	if err := rec.Close(); err != nil {
 		rep.Infra("trace file: %v", err)
 	}
 	if err := rep.Finish(rec); err != nil {
 		t.Fatal(err)
+	}
+}
+
+func spMalformedProbe(rep *kit.Report) {
+	for i, variant := range []string{"plain", "sender_ban", "disbanded"} {
+		st := newSPStore()
+		from, id := fmt.Sprintf("ms%d", i), fmt.Sprintf("malformed%d", i) // no "@": not a person channel id
+		switch variant {
+		case "sender_ban":
+			st.channels[spChKey{from, 1}] = metadb.Channel{ChannelID: from, ChannelType: 1, SendBan: 1}
+		case "disbanded":
+			st.channels[spChKey{id, 1}] = metadb.Channel{ChannelID: id, ChannelType: 1, Disband: 1}
+		}
+		cmd := message.SendCommand{FromUID: from, DeviceID: "d", ChannelID: id, ChannelType: 1, ClientMsgNo: "m", Payload: []byte("x")}
+		mk := func(sub *spSubmitter) *message.App {
+			return message.New(message.Options{Submitter: sub, PermissionStore: st, PermissionBatchStore: st, SystemUIDs: st, SystemDeviceID: spSystemDevice})
+		}
+		subS, subB := &spSubmitter{seen: map[string]int{}}, &spSubmitter{seen: map[string]int{}}
+		r, err := mk(subS).Send(context.Background(), cmd)
+		send := spOutcome(r, err, subS.seen["m"])
+		rs := mk(subB).SendBatch([]message.SendBatchItem{{Command: cmd}})
+		if len(rs) != 1 {
+			rep.Infra("malformed probe: SendBatch returned %d results", len(rs))
+			return
+		}
+		batch := spOutcome(rs[0].Result, rs[0].Err, subB.seen["m"])
+		rep.Cover("MalformedProbe")
+		if d := kit.Diff(send, batch); d != "" {
+			rep.ViolateSig("C36", "paths", fmt.Sprintf("undecodable person channel id %q with NormalizePersonChannel=false (%s): Send returned %s, SendBatch returned %s",
+				id, variant, kit.JSON(send), kit.JSON(batch)), "C36-malformed-person-channel-id",
+				map[string]any{"variant": variant, "command": spCmd(cmd), "send": send, "batch": batch})
+		}
 	}
 }
 
